@@ -3,6 +3,7 @@
   `senc`/`sdec` (Spec).
 -/
 import AgeModel.Wire
+import AgeModel.IO
 namespace AgeModel
 namespace Exec
 open Stream Wire
@@ -87,6 +88,24 @@ def sdec (args : List String) : String :=
     | _, _, _ => "bad-args"
   | _ => "bad-arity"
 
+/-- `rf <n1,n2,…> <piece;piece;…|-> <last> <fail>`: successive `io.ReadFull` calls of the given sizes on one source -/
+def rf (args : List String) : String :=
+  match args with
+  | [ns, ps, last, fail] =>
+    match (splitOn ns ',').mapM nat?, (if ps = "-" then some [] else (splitOn ps ';').mapM unhex), unhex last, bool? fail with
+    | some ns, some ps, some last, some fail =>
+      let statusName : IO.Status → String
+        | .ok => "ok" | .eof => "eof" | .unexpectedEOF => "unexpected" | .err => "err"
+      let rec go (ns : List Nat) (s : IO.Sched) (acc : List String) : List String :=
+        match ns with
+        | [] => acc.reverse
+        | n :: rest =>
+          let (out, st, s') := IO.readFull n s.fail [] s.pieces s.last
+          go rest s' (s!"{statusName st}:{hexOrDash out}" :: acc)
+      ";".intercalate (go ns ⟨ps, last, fail⟩ [])
+    | _, _, _, _ => "bad-args"
+  | _ => "bad-arity"
+
 namespace Stream
 def handle (op : String) (args : List String) : Option String :=
   match op with
@@ -95,6 +114,7 @@ def handle (op : String) (args : List String) : Option String :=
   | "senc" => some (senc args)
   | "sencz" => some (sencz args)
   | "sdec" => some (sdec args)
+  | "rf" => some (rf args)
   | _ => none
 end Stream
 
